@@ -20,6 +20,7 @@ EXPLANATION = (
     'from a request that the allocator serves from a slab: the request expression is bounded, on every path, strictly below the '
     'threshold at which internalPoolMalloc itself switches to large objects (caller/callee guard agreement).  Disjointness, alignment, msize >= request, size-class / bin arithmetic, boundary-tag coalescing and "never writes '
     'into a live block" are NOT decided.')
+EXPLANATION += ' Added after the seeded-change rounds: ' + "D1 also: both branches of freeSmallObject link the START of the object (findObjectToFree at the call site or in the callee); D4: an internalPoolMalloc result whose address is moved (alignUp) comes from a request bounded strictly below internalPoolMalloc's own large-object threshold."
 ASSUMPTIONS = ['FREELIST_NONBLOCKING configuration (the shipped one)', 'Linux configuration']
 ND = ['disjointness of live blocks', 'alignment of results', 'scalable_msize >= request', 'size-class and bin arithmetic',
       'boundary-tag coalescing', 'never writing into a live block']
